@@ -225,7 +225,7 @@ Proof.
   destruct (unw r).
   { destruct (fk f); fin. }
   destruct (ext r) as [[tb b]|].
-  { destruct (fk f) as [| m | | [] b']; destruct tb; destruct (fops f); fin. }
+  { destruct (fk f) as [| m | | [] b']; destruct tb; try destruct (Nat.eqb b' b); cbn [andb]; fin. }
   destruct (fops f) as [|o ops'].
   { destruct (fk f); fin. }
   unfold exec. change (chs (erase s)) with (map erase_ch (chs s)). change (mus (erase s)) with (mus s).
